@@ -29,9 +29,14 @@ static void fn_hook(void *fn, sim::Task *t) {
 	}
 }
 
+Prop *make_c09_conc_fwd();
+
 struct Conc : Prop {
 	bool is_c11;
-	explicit Conc(bool c11) : is_c11(c11) {}
+	// C10, atomicity of the high-level commands: a share of the runs uses the C09 generator in its concurrent mode and the C09
+	// oracle (serial-order explanation of the downlink against the config->message reference model)
+	Prop *sub = nullptr; bool deleg = false; uint64_t deleg_runs = 0;
+	explicit Conc(bool c11) : is_c11(c11) { if (!c11) sub = make_c09_conc_fwd(); }
 	const char *id() const override { return is_c11 ? "C11" : "C10"; }
 	// a poll loop that waits for an answer which never comes is not a lock problem
 	bool owns(const std::string &cls) const override { return cls != "WAIT_FOREVER"; }
@@ -51,8 +56,9 @@ struct Conc : Prop {
 		       "distinct = (shape, trace).";
 	}
 
-	J generate(Rng &r, const std::string &tier, uint64_t) override {
+	J generate(Rng &r, const std::string &tier, uint64_t seed) override {
 		bool thorough = tier == "thorough";
+		if (sub && r.chance(220)) { J p = sub->generate(r, tier, seed); p.set("delegate", "C09-concurrent"); return p; }
 		J plan = J::obj();
 		cfg::GenOpts o; o.max_boards = thorough ? 4 : 3; o.max_trains = 3; o.allow_absent = is_c11;
 		cfg::World w = cfg::gen_world(r, o);
@@ -187,6 +193,9 @@ struct Conc : Prop {
 	uint64_t torn_checks = 0, receiver_wrlocks = 0;
 
 	void attach(Engine &e) override {
+		deleg = sub && e.plan.has("delegate");
+		sim::hooks().on_fn_enter = nullptr;
+		if (deleg) { deleg_runs++; sub->attach(e); return; }
 		g_e = &e; g_armed = false; g_contract_checks = 0;
 		world = cfg::from_json(e.plan["world"]);
 		cmap.clear(); pongs_sent.clear(); pongs_read.clear(); torn_checks = 0; receiver_wrlocks = 0;
@@ -195,10 +204,13 @@ struct Conc : Prop {
 		sim::hooks().on_fn_enter = fn_hook;
 		e.bus.on_delivered = [this](bus::UpFrame &f) { for (auto &m : f.msgs) if (m.type == MSG_SYS_PONG && m.data.size() == 3 && m.data[2] == 0x77) pongs_sent.insert(m.data); };
 	}
-	void on_session_start(Engine &e, int, int ret) override { g_armed = (ret == 0) && !is_c11; (void) e; }
-	void before_stop(Engine &, int) override { g_armed = false; }
+	void on_session_start(Engine &e, int s, int ret) override { if (deleg) { sub->on_session_start(e, s, ret); return; } g_armed = (ret == 0) && !is_c11; }
+	void before_stop(Engine &e, int s) override { if (deleg) { sub->before_stop(e, s); return; } g_armed = false; }
+	void on_session_stop(Engine &e, int s) override { if (deleg) sub->on_session_stop(e, s); }
+	void at_end(Engine &e) override { if (deleg) sub->at_end(e); }
 
 	void after_op(Engine &e, OpRec &o) override {
+		if (deleg) { sub->after_op(e, o); return; }
 		const std::string &k = o.op->gets("op");
 		if (k == "reset") return;
 		if (k == "read" && o.has_bytes && o.bytes.size() == 7 && o.bytes[3] == MSG_SYS_PONG && o.bytes[6] == 0x77) {
@@ -245,11 +257,20 @@ struct Conc : Prop {
 		if (fn == "train_state" && o.result.getb("known")) check_train(o.op->operator[]("s")[0].str(), o.result["data"]);
 	}
 
-	void at_quiescence(Engine &e, int, int) override {
+	void at_quiescence(Engine &e, int s, int p) override {
+		if (deleg) { sub->at_quiescence(e, s, p); return; }
 		if (!e.bus.dec.error.empty()) e.violate("FRAMING", "downlink", e.bus.dec.error);
 	}
 
 	void coverage(Engine &e, J &f) override {
+		if (deleg) {
+			sub->coverage(e, f);
+			J p = J::obj(); long long ov = 0;
+			for (auto &kv : f["probes"].o) { if (kv.first.compare(0, 10, "concurrent") == 0) p.set("command_atomicity_" + kv.first, kv.second); if (kv.first == "concurrent_phases_with_overlapping_calls") ov = (long long) kv.second.num(); }
+			p.set("command_atomicity_runs", 1);
+			f.set("probes", p); f.set("nontrivial", ov > 0);
+			return;
+		}
 		const sim::RunStats &st = sim::stats();
 		bool overlap = false;
 		for (size_t i = 0; i < e.oplog.size() && !overlap; i++) for (size_t j = i + 1; j < e.oplog.size() && j < i + 30; j++)
@@ -264,5 +285,7 @@ struct Conc : Prop {
 
 }  // namespace
 
+Prop *make_c09_conc();
+namespace { Prop *make_c09_conc_fwd() { return make_c09_conc(); } }
 Prop *make_c10() { return new Conc(false); }
 Prop *make_c11() { return new Conc(true); }
